@@ -15,12 +15,12 @@ pub(crate) fn set_total_output_counter(db: &mut DecodeBuffer, v: u64) { db.total
 // dictionary and continue in the output in every alignment, offsets beyond dictionary + output, and the
 // "dictionary only while the output is within the window" rule.  Ring operations below are S1 (fixed ring) and S13
 // (contract of copy-from-within, preconditions asserted).
-fn db_repeat_model<const MAXML: usize>() {
+fn db_repeat_model<const MAXML: usize, const DL: usize, const L: usize>() {
     nd::set_stub_arg(0, 33);
     let dict: [u8; 4] = nd::any();
     let data: [u8; 4] = nd::any();
-    let dl: usize = nd::any(); let l: usize = nd::any();
-    nd::assume(dl <= 4 && l <= 4);
+    // dictionary and output lengths are case-split (fully symbolic lengths exhausted 10 GB)
+    let dl: usize = DL; let l: usize = L;
     let w: usize = nd::any();
     let mut db = DecodeBuffer::new(w);
     db.dict_content.extend_from_slice(&dict[..dl]);
@@ -43,9 +43,9 @@ fn db_repeat_model<const MAXML: usize>() {
             assert!(reach_ok, "match offset beyond dictionary plus output accepted");
             assert!(offset <= l || toc <= w as u64, "dictionary used although the output has left the window");
             assert!(db.len() == l + ml, "wrong number of bytes appended");
-            nd_cover!(offset > l && offset - l < ml, "match starts in the dictionary and continues in the output");
-            nd_cover!(offset <= l && offset < ml, "overlapping match");
-            nd_cover!(offset == l + dl && dl > 0, "match reaches the very first dictionary byte");
+            nd_cover!(DL == 0 || (offset > l && offset - l < ml), "match starts in the dictionary and continues in the output");
+            nd_cover!(L == 0 || (offset <= l && offset < ml), "overlapping match");
+            nd_cover!(DL == 0 || offset == l + dl, "match reaches the very first dictionary byte");
             if l + ml > 0 {
                 let i: usize = nd::any();
                 nd::assume(i < l + ml);
@@ -59,13 +59,17 @@ fn db_repeat_model<const MAXML: usize>() {
             assert!(offset > l, "match inside the output refused");
             assert!(!reach_ok || toc > w as u64, "match reaching into an accessible dictionary refused");
             nd_cover!(!reach_ok, "offset beyond dictionary plus output");
-            nd_cover!(reach_ok && toc > w as u64, "dictionary no longer accessible");
+            nd_cover!(DL == 0 || (reach_ok && toc > w as u64), "dictionary no longer accessible");
         }
     }
     core::mem::forget(db);
 }
-harness! { fn db_repeat_model_ml4() { db_repeat_model::<4>(); } }
-harness! { fn db_repeat_model_ml8() { db_repeat_model::<8>(); } }
+harness! { fn db_repeat_model_d2_o3() { db_repeat_model::<4, 2, 3>(); } }
+harness! { fn db_repeat_model_d0_o4() { db_repeat_model::<4, 0, 4>(); } }
+harness! { fn db_repeat_model_d3_o0() { db_repeat_model::<4, 3, 0>(); } }
+harness! { fn db_repeat_model_d4_o1() { db_repeat_model::<4, 4, 1>(); } }
+harness! { fn db_repeat_model_d1_o2_ml8() { db_repeat_model::<8, 1, 2>(); } }
+harness! { fn db_repeat_model_d0_o3_ml8() { db_repeat_model::<8, 0, 3>(); } }
 
 // C06: drain into a sink that takes any prefix and then stops with Ok(0) or WouldBlock: exactly the accepted bytes
 // leave the buffer, the rest stays in order; the drop count handed to the ring never exceeds its length.
@@ -131,3 +135,63 @@ harness! { fn db_drain_partial_sink() {
     nd_cover!(keep_window && l > w && accept >= l - w, "drain down to the window");
     core::mem::forget(db);
 } }
+
+// ------------------------------------------------------------------------------------------------ C08 (hash feature + shim)
+// Which bytes reach the hasher: after any first drain operation followed by a complete drain, the hasher has seen
+// exactly the buffer's bytes, once, in order; reset() restarts it.  OP: 0 drain_to_writer(partial/resuming sink),
+// 1 drain_to_window_size_writer, 2 read (window-respecting), 3 read_all, 4 drain_to_window_size (Vec), then drain().
+#[cfg(feature = "hash")]
+fn db_hash_paths<const OP: u8>() {
+    nd::set_stub_arg(0, 9);
+    let data: [u8; 8] = nd::any();
+    let pre: usize = nd::any(); let l: usize = nd::any();
+    nd::assume(pre <= 6 && l >= 1 && l <= 8);
+    let w: usize = nd::any();
+    nd::assume(w <= 8);
+    let mut db = DecodeBuffer::new(w);
+    if pre > 0 { let junk = [0u8; 8]; db.push(&junk[..pre]); db.buffer.drop_first_n(pre); }
+    db.push(&data[..l]);
+    assert!(db.hash.len == 0 && db.hash.seed == 0, "bytes hashed before anything was handed out");
+    let mut first = 0usize; // bytes handed out by the first operation
+    match OP {
+        0 | 1 => {
+            let accept: usize = nd::any(); let resume: usize = nd::any();
+            nd::assume(accept <= 8 && resume <= 8 - accept);
+            let mut sink = PSink { buf: [0; 16], n: 0, accept, block: nd::any(), resume, stopped: false };
+            let r = if OP == 0 { db.drain_to_writer(&mut sink) } else { db.drain_to_window_size_writer(&mut sink) };
+            match r { Ok(_) => {}, Err(e) => core::mem::forget(e) }
+            first = sink.n;
+        }
+        2 | 3 => {
+            let k: usize = nd::any();
+            nd::assume(k <= 8);
+            let mut t = [0u8; 8];
+            let r = if OP == 2 { Read::read(&mut db, &mut t[..k]) } else { db.read_all(&mut t[..k]) };
+            first = match r { Ok(n) => n, Err(e) => { core::mem::forget(e); 0 } };
+        }
+        _ => { if let Some(v) = db.drain_to_window_size() { first = v.len(); core::mem::forget(v); } }
+    }
+    assert!(first <= l);
+    let (wl, wa) = twox_hash::reference_state(&data[..first]);
+    assert!(db.hash.len == wl && db.hash.acc == wa, "bytes hashed differ from the bytes handed out by the first drain operation");
+    let rest = db.drain();
+    assert!(rest.len() == l - first);
+    core::mem::forget(rest);
+    let (wl, wa) = twox_hash::reference_state(&data[..l]);
+    assert!(db.hash.len == wl && db.hash.acc == wa, "after a complete drain the hasher has not seen exactly the delivered bytes in order");
+    nd_cover!(pre + l > 9 && first > 0 && first < l, "wrapped content, partial first drain");
+    nd_cover!(first == 0, "nothing handed out first");
+    db.reset(w);
+    assert!(db.hash.len == 0 && db.hash.acc == 0 && db.hash.seed == 0, "hash state survives reset");
+    core::mem::forget(db);
+}
+#[cfg(feature = "hash")]
+harness! { fn db_hash_sink_then_drain() { db_hash_paths::<0>(); } }
+#[cfg(feature = "hash")]
+harness! { fn db_hash_window_sink_then_drain() { db_hash_paths::<1>(); } }
+#[cfg(feature = "hash")]
+harness! { fn db_hash_read_then_drain() { db_hash_paths::<2>(); } }
+#[cfg(feature = "hash")]
+harness! { fn db_hash_read_all_then_drain() { db_hash_paths::<3>(); } }
+#[cfg(feature = "hash")]
+harness! { fn db_hash_collect_window_then_drain() { db_hash_paths::<4>(); } }
